@@ -94,8 +94,16 @@ def runDeferred : Nat → St → List (Nat × Int) → List (String × Int) → 
     -- nested `end_of_transaction` drains the `post` queue itself (depth-first, as in M_txn's `trace`)
     runDeferred fuel st (more ++ rest) (acc ++ cbs)
 
+/-- a Lazy taken from a cell that could not be read yet (an open CellLoop) denotes the cell's value
+    at the start of the transaction it was taken in: fixed when that transaction closes -/
+def resolveLazies (st : St) : St :=
+  { st with names := st.names.map fun (n, h) => match h with
+      | .lazy none (some c) => (n, .lazy (st.sp.val c) (some c))
+      | h => (n, h) }
+
 /-- the outermost transaction closes -/
 def closeTxn (st : St) : St × String :=
+  let st := resolveLazies st
   let (st1, cbs, dfr) := runOne st st.sends st.posts
   let st1 := { st1 with sends := [], posts := [] }
   let (st2, cbs2, diverged) := runDeferred 200 st1 dfr cbs
@@ -188,9 +196,10 @@ def stmt (st : St) (ws : List String) : St × String :=
     match st.stream s, st.find z with
     | some s, some (.lazy snap cell) =>
       let v := snap.orElse fun _ => cell.bind st.sp.val
-      (match v with
-       | some v => defStmt st x (some (.hold s v)) .c
-       | none => ({ st with dead := true }, "PANIC sample-before-loop"))
+      (match v, cell with
+       | some v, _ => defStmt st x (some (.hold s v)) .c
+       | none, some c => defStmt st x (some (.holdz s c)) .c     -- `hold_lazy` does not force the Lazy
+       | none, none => ({ st with dead := true }, "PANIC sample-before-loop"))
     | _, _ => (st, "skip")
   | ["once", x, s] => defStmt st x (do pure (.once (← st.stream s))) .s
   | ["updates", x, c] => defStmt st x (do pure (.updates (← st.cell c))) .s
